@@ -18,6 +18,7 @@ import (
 	"runtime/debug"
 	"sort"
 	"strings"
+	"time"
 
 	"github.com/ghodss/yaml"
 )
@@ -447,7 +448,15 @@ func facetMutate(args []string) error {
 		// memory) the supervisor records this mutant and resumes after it
 		os.WriteFile(filepath.Join(*out, "progress"), []byte(fmt.Sprintf("%d\t%s\t%s\t%s\t%s", i, m.id, m.base, m.fault, hex.EncodeToString(m.doc))), 0o644)
 		w := filepath.Join(*work, m.id)
+		// a generator that does not return is a finding too: the worker gives up on this mutant,
+		// the supervisor records it (progress marker) and resumes after it
+		disarm := armWatchdog(40*time.Second, func() {
+			ow.Flush()
+			fmt.Fprintln(os.Stderr, "fatal error: HANG: the generator did not return within 40s")
+			os.Exit(3)
+		})
 		r := runGoag(w, GenSpec{Name: "p", Spec: m.doc, Ext: "json", Client: i%3 == 0, Cors: i%4 == 0, DoNotEdit: true})
+		disarm()
 		outcome := r.Outcome
 		detail := r.Detail
 		if outcome == "error" && strings.HasPrefix(detail, "load spec") {
